@@ -62,6 +62,7 @@ type State struct {
 	Trace  []string // revealed symbols so far, for witnesses (not part of the key)
 	Notes  map[string]bool
 	Path   []string // decided atoms ("<atom>=T/F") of forks on named conditions
+	Globals map[*ssa.Global]int
 }
 
 type HookFn func(m *Machine, st *State, call *ssa.CallCommon, args []Val) (alts []Val, handled bool)
@@ -79,6 +80,7 @@ type Machine struct {
 	InvokeHook func(m *Machine, st *State, call *ssa.CallCommon, recv Val, args []Val) ([]Val, bool)
 	OnAppend  func(st *State, site ssa.Instruction, slice Val, elems []Val)
 	OnStore   func(st *State, site *ssa.Store, addr Ptr, v Val)
+	skipInit  func(fn *ssa.Function) bool
 	Stuck     map[string]int
 }
 
@@ -137,6 +139,12 @@ func (st *State) Clone() *State {
 	}
 	n.Trace = append([]string(nil), st.Trace...)
 	n.Path = append([]string(nil), st.Path...)
+	if st.Globals != nil {
+		n.Globals = make(map[*ssa.Global]int, len(st.Globals))
+		for k, v := range st.Globals {
+			n.Globals[k] = v
+		}
+	}
 	n.Notes = make(map[string]bool, len(st.Notes))
 	for k := range st.Notes {
 		n.Notes[k] = true
@@ -310,6 +318,15 @@ func (m *Machine) get(st *State, fr *Frame, v ssa.Value) Val {
 	case *ssa.Builtin:
 		return &FuncV{Fn: x}
 	case *ssa.Global:
+		if x.Pkg != nil && (strings.HasPrefix(x.Pkg.Pkg.Path(), repoModule) || strings.HasPrefix(x.Pkg.Pkg.Path(), "gdsa/")) && st.Globals != nil {
+			id, ok := st.Globals[x]
+			if !ok {
+				et := x.Type().Underlying().(*types.Pointer).Elem()
+				id = st.alloc(et, zeroVal(et))
+				st.Globals[x] = id
+			}
+			return Ptr{Obj: id}
+		}
 		return Unknown{Why: "global " + x.Name()}
 	}
 	if r, ok := fr.Regs[v]; ok {
@@ -703,6 +720,69 @@ func (m *Machine) step(st *State) (forks []*State) {
 		}
 		id := st.alloc(types.NewArray(et, n), arr)
 		set(SliceV{Obj: id, Len_: int(n), Cap: int(n)})
+	case *ssa.MakeMap:
+		id := st.alloc(x.Type(), &MapObjV{})
+		set(MapV{Obj: id})
+	case *ssa.MapUpdate:
+		mv, ok := m.get(st, fr, x.Map).(MapV)
+		if !ok {
+			st.stuck("map update on %T", m.get(st, fr, x.Map))
+			return nil
+		}
+		mo := st.Heap[mv.Obj].V.(*MapObjV)
+		k := cloneVal(m.get(st, fr, x.Key))
+		v := cloneVal(m.get(st, fr, x.Value))
+		ks := fmtVal(k, func(i int) string { return fmt.Sprint(i) })
+		found := false
+		for i := range mo.K {
+			if fmtVal(mo.K[i], func(i int) string { return fmt.Sprint(i) }) == ks {
+				mo.V[i] = v
+				found = true
+			}
+		}
+		if !found {
+			mo.K = append(mo.K, k)
+			mo.V = append(mo.V, v)
+		}
+		fr.PC++
+	case *ssa.Lookup:
+		base := m.get(st, fr, x.X)
+		k := m.get(st, fr, x.Index)
+		switch mv := base.(type) {
+		case MapV:
+			mo := st.Heap[mv.Obj].V.(*MapObjV)
+			switch k.(type) {
+			case string, int64, bool:
+			default:
+				st.stuck("map lookup with an abstract key (%T)", k)
+				return nil
+			}
+			ks := fmtVal(k, func(i int) string { return fmt.Sprint(i) })
+			var val Val
+			found := false
+			for i := range mo.K {
+				if fmtVal(mo.K[i], func(i int) string { return fmt.Sprint(i) }) == ks {
+					val, found = cloneVal(mo.V[i]), true
+				}
+			}
+			if !found {
+				val = zeroVal(x.X.Type().Underlying().(*types.Map).Elem())
+			}
+			if x.CommaOk {
+				set(&TupleV{E: []Val{val, found}})
+			} else {
+				set(val)
+			}
+		case nilV:
+			val := zeroVal(x.X.Type().Underlying().(*types.Map).Elem())
+			if x.CommaOk {
+				set(&TupleV{E: []Val{val, false}})
+			} else {
+				set(val)
+			}
+		default:
+			st.stuck("lookup in %T", base)
+		}
 	case *ssa.MakeClosure:
 		f := &FuncV{Fn: x.Fn.(*ssa.Function)}
 		for _, b := range x.Bindings {
@@ -843,6 +923,25 @@ func (m *Machine) doCall(st *State, fr *Frame, x *ssa.Call) []*State {
 			st.stuck("invoke on %T", recv)
 			return nil
 		}
+		if types.NewMethodSet(iv.T).Lookup(cc.Method.Pkg(), cc.Method.Name()) == nil {
+			// a method of an opaque stand-in object: the call is an opaque effect
+			if pp, ok := iv.V.(Ptr); ok {
+				if o, ok := st.Heap[pp.Obj]; ok {
+					if ov, ok := o.V.(OpaqueV); ok {
+						st.Notes["opaque-call:"+ov.Name+"."+cc.Method.Name()] = true
+						res := cc.Signature().Results()
+						switch res.Len() {
+						case 0:
+							return finish([]Val{nil})
+						case 1:
+							return finish([]Val{OpaqueV{ov.Name + "." + cc.Method.Name() + "()"}})
+						}
+					}
+				}
+			}
+			st.stuck("no method %s on %s", cc.Method.Name(), iv.T)
+			return nil
+		}
 		fn := m.P.SSA.LookupMethod(iv.T, cc.Method.Pkg(), cc.Method.Name())
 		if fn == nil {
 			st.stuck("no method %s on %s", cc.Method.Name(), iv.T)
@@ -878,6 +977,9 @@ func (m *Machine) doCall(st *State, fr *Frame, x *ssa.Call) []*State {
 
 func (m *Machine) callFn(st *State, fr *Frame, x *ssa.Call, fn *ssa.Function, args []Val, bind []Val, finish func([]Val) []*State) []*State {
 	name := fn.String()
+	if m.skipInit != nil && m.skipInit(fn) {
+		return finish([]Val{nil})
+	}
 	if h, ok := m.Hooks[name]; ok {
 		alts, handled := h(m, st, &x.Call, args)
 		if st.Status != stRun {
@@ -945,6 +1047,8 @@ func (m *Machine) builtin(st *State, x *ssa.Call, name string, args []Val) (Val,
 			return Unknown{Why: "len of unknown"}, true
 		case *ArrayV:
 			return int64(len(s.E)), true
+		case MapV:
+			return int64(len(st.Heap[s.Obj].V.(*MapObjV).K)), true
 		}
 		st.stuck("len of %T", args[0])
 		return nil, false
@@ -1704,6 +1808,16 @@ func (m *Machine) Key(st *State) string {
 			}
 		}
 	}
+	if st.Globals != nil {
+		var gs []*ssa.Global
+		for g := range st.Globals {
+			gs = append(gs, g)
+		}
+		sort.Slice(gs, func(i, j int) bool { return gs[i].Pos() < gs[j].Pos() })
+		for _, g := range gs {
+			visit(st.Globals[g])
+		}
+	}
 	for id := range st.Heap {
 		if _, ok := name[id]; !ok {
 			delete(st.Heap, id)
@@ -1904,4 +2018,51 @@ func (m *Machine) linop(st *State, op token.Token, a, b Val) (Val, bool) {
 	}
 	st.stuck("operator %s on symbolic integers", op)
 	return nil, false
+}
+
+
+// InitPackages runs the init functions of the given repository packages on st
+// (which must have no frames), so that package-level tables have their
+// initial values. Init functions of other packages are skipped.
+func (m *Machine) InitPackages(st *State, pkgs ...string) string {
+	if st.Globals == nil {
+		st.Globals = map[*ssa.Global]int{}
+	}
+	allowed := map[*ssa.Function]bool{}
+	for _, k := range pkgs {
+		if sp := m.P.SPkg[k]; sp != nil {
+			if f := sp.Func("init"); f != nil {
+				allowed[f] = true
+			}
+		}
+	}
+	prev := m.Hooks
+	m.Hooks = map[string]HookFn{}
+	for k, v := range prev {
+		m.Hooks[k] = v
+	}
+	defer func() { m.Hooks = prev }()
+	m.skipInit = func(fn *ssa.Function) bool {
+		return fn.Name() == "init" && fn.Signature.Params().Len() == 0 && fn.Signature.Recv() == nil && !allowed[fn]
+	}
+	defer func() { m.skipInit = nil }()
+	for _, k := range pkgs {
+		sp := m.P.SPkg[k]
+		if sp == nil {
+			return "package " + k + " not loaded"
+		}
+		f := sp.Func("init")
+		if f == nil {
+			continue
+		}
+		st.Status = stRun
+		st.push(f, nil, nil)
+		out := m.Run(st)
+		if len(out) != 1 || out[0] != st || st.Status != stRet {
+			return "package initialiser of " + k + ": " + retDesc(out)
+		}
+		st.Status = stRun
+		st.Ret = nil
+	}
+	return ""
 }
